@@ -127,6 +127,27 @@ Theorem compact_idempotent : forall ps q, merge ps = MOk q -> compact q = MOk q.
 Proof. exact compact_idempotent_lemma. Qed.
 Print Assumptions compact_idempotent.
 
+(* -- histories.  Merge and Compact are judged on what their inputs contain at the time of the call:
+   for ANY profile q -- in particular the result of an earlier Merge that has since been edited in
+   place (Profile.Aggregate, demangling, ...) -- compaction regroups by the current frame identities,
+   and merging the edited result with further profiles sums by them.  (The model is a function of the
+   dump; the harness's hist-* streams present the implementation with objects that HAVE such a past,
+   so state kept on objects or in the package between operations shows as a difference.) -- *)
+Theorem compact_conserves : forall q q2,
+  compact q = MOk q2 ->
+  (forall k j, eq64 (wt q2 k j) (wt q k j)) /\
+  NoDup (map (sample_ident_of q2) (p_sample q2)) /\
+  (forall s, In s (p_sample q2) -> is_zero_sample s = false).
+Proof. exact compact_conserves_lemma. Qed.
+Print Assumptions compact_conserves.
+
+Theorem merge_after_edit : forall (edit : profile -> profile) ps q rest q2,
+  merge ps = MOk q -> merge (edit q :: rest) = MOk q2 ->
+  (forall k j, eq64 (wt q2 k j) (wt (edit q) k j + sumZ (map (fun p => wt p k j) rest))) /\
+  NoDup (map (sample_ident_of q2) (p_sample q2)).
+Proof. exact merge_after_edit_lemma. Qed.
+Print Assumptions merge_after_edit.
+
 (* -- the model compares sample keys as tuples, the Go code as varint byte strings: the byte
    encoding (compared with the real sampleKey byte for byte on every run) is injective on keys whose
    ids are non-zero uint64, numeric values int64 and lengths < 2^64 -- *)
@@ -189,6 +210,26 @@ Proof.
   split; [vm_compute; reflexivity|]. vm_compute. discriminate.
 Qed.
 Print Assumptions merge_period_max_refuted.
+
+(* a history: two functions that differ only in their file name are kept apart by Merge; after the
+   file names are dropped in place (what Aggregate does) compaction makes one stack of them: 3 + 4 *)
+Definition hist_fn (id : Z) (file : string) := {| f_id := id; f_name := "f"; f_sysname := "f"; f_file := file; f_startline := 10 |}.
+Definition hist_prof : profile :=
+  {| p_sampletype := [ex_vt]; p_defaultsampletype := ""; p_sample := [ex_sample 1 3; ex_sample 2 4]; p_mapping := [];
+     p_location := [ex_loc 1 1; ex_loc 2 2]; p_function := [hist_fn 1 "a.go"; hist_fn 2 "b.go"]; p_comments := [];
+     p_docurl := ""; p_dropframes := ""; p_keepframes := ""; p_timenanos := 0; p_durationnanos := 0;
+     p_periodtype := Some ex_vt; p_period := 1 |}.
+Definition drop_files (p : profile) : profile :=
+  with_function p (map (fun f => {| f_id := f_id f; f_name := f_name f; f_sysname := f_sysname f; f_file := "";
+                                    f_startline := f_startline f |}) (p_function p)).
+Example history_example :
+  match merge [hist_prof] with
+  | MOk q => map s_val (p_sample q) = [[3]; [4]] /\
+             match compact (drop_files q) with
+             | MOk q2 => map s_val (p_sample q2) = [[7]] /\ List.length (p_function q2) = 1%nat
+             | _ => False end
+  | _ => False end.
+Proof. vm_compute. repeat split. Qed.
 
 (* a sum that cancels takes the re-merge path and disappears *)
 Example cancel_example :
